@@ -150,6 +150,9 @@ fn gap(l: &[i128]) -> i128 {
 }
 
 pub fn run_op(ctx: &mut Ctx, op: &str) {
+    if ctx.hang_limit_reached() {
+        return;
+    }
     run_op_w(ctx, op, true)
 }
 
